@@ -50,9 +50,10 @@ const (
 	vC13ServFail
 	vC13NotImp
 	vC13Silent
+	vC13NotAuth
 )
 
-var vC13BehaviourNames = []string{"healthy", "healthy-slow", "REFUSED", "SERVFAIL", "NOTIMP", "silent"}
+var vC13BehaviourNames = []string{"healthy", "healthy-slow", "REFUSED", "SERVFAIL", "NOTIMP", "silent", "NOTAUTH"}
 
 type vC13Authority struct {
 	pc     net.PacketConn
@@ -84,6 +85,8 @@ func vC13StartAuthority(behave int) (*vC13Authority, error) {
 			reply.Rcode = dns.RcodeServerFailure
 		case vC13NotImp:
 			reply.Rcode = dns.RcodeNotImplemented
+		case vC13NotAuth:
+			reply.Rcode = dns.RcodeNotAuth
 		case vC13HealthySlow:
 			time.Sleep(120 * time.Millisecond)
 			fallthrough
@@ -234,6 +237,41 @@ func vC13Shed(zoneQuota bool, name string) vC13ShedObs {
 	return o
 }
 
+type vC13LabCorpusCase struct {
+	Zone    string `json:"zone"`
+	Servers []int  `json:"servers"`
+}
+
+// a missing corpus file is fine; a malformed one is a broken check, not an empty corpus
+func vC13LabCorpus(t *testing.T) []vC13LabCorpusCase {
+	dir := os.Getenv("VERIF_CORPUS")
+	if dir == "" {
+		return nil
+	}
+	b, err := os.ReadFile(dir + "/lab.json")
+	if os.IsNotExist(err) {
+		return nil
+	}
+	if err != nil {
+		t.Fatalf("corpus: %v", err)
+	}
+	var out []vC13LabCorpusCase
+	if err := json.Unmarshal(b, &out); err != nil {
+		t.Fatalf("corpus lab.json: %v", err)
+	}
+	for _, c := range out {
+		if c.Zone == "" || len(c.Servers) == 0 {
+			t.Fatalf("corpus lab.json: empty zone or server list")
+		}
+		for _, s := range c.Servers {
+			if s < 0 || s >= len(vC13BehaviourNames) {
+				t.Fatalf("corpus lab.json: unknown behaviour %d", s)
+			}
+		}
+	}
+	return out
+}
+
 func vC13EdeCoq(e int) string {
 	if e < 0 {
 		return "None"
@@ -266,37 +304,14 @@ func TestVerifC13Lab(t *testing.T) {
 	r := rand.New(rand.NewSource(seed + 77))
 	zones := []string{"example.", "lab.example.", "a.lab.example."}
 	failing := []int{vC13Refused, vC13ServFail, vC13NotImp, vC13Refused, vC13ServFail}
-	for i := 0; i < n; i++ {
-		k := 1 + r.Intn(6)
-		var bs []int
-		healthy := 0
-		switch r.Intn(4) {
-		case 0: // every server fails
-		case 1:
-			healthy = 1
-		default:
-			healthy = 1 + r.Intn(2)
-		}
-		if healthy > k {
-			healthy = k
-		}
-		for j := 0; j < k-healthy; j++ {
-			bs = append(bs, failing[r.Intn(len(failing))])
-		}
-		for j := 0; j < healthy; j++ {
-			bs = append(bs, []int{vC13Healthy, vC13HealthySlow, vC13HealthySlow}[r.Intn(3)])
-		}
-		r.Shuffle(len(bs), func(a, b int) { bs[a], bs[b] = bs[b], bs[a] })
-		if r.Intn(6) == 0 { // one silent server: costs a network timeout
-			bs[r.Intn(len(bs))] = vC13Silent
-		}
+	failing = append(failing, vC13NotAuth)
+	runFanout := func(bs []int, zone, kindTag string) {
 		anyHealthy := false
 		for _, b := range bs {
 			if b == vC13Healthy || b == vC13HealthySlow {
 				anyHealthy = true
 			}
 		}
-		zone := zones[r.Intn(len(zones))]
 		var obs vC13FanoutObs
 		wrong := func(o vC13FanoutObs) bool {
 			if anyHealthy {
@@ -324,6 +339,9 @@ func TestVerifC13Lab(t *testing.T) {
 		if !anyHealthy {
 			kind = "lab-fanout-all-fail"
 		}
+		if kindTag != "" {
+			kind = kindTag
+		}
 		emit(map[string]any{
 			"k":            kind,
 			"coq":          fmt.Sprintf("CaseLab [%s]%%N %d %d %d", strings.Join(bc, ";"), obs.records, obs.clears, obs.rcode),
@@ -331,6 +349,70 @@ func TestVerifC13Lab(t *testing.T) {
 			"inconclusive": inconclusive,
 			"desc":         map[string]any{"zone": zone, "servers": bn, "zone_failures_published": obs.records, "cleared": obs.clears, "rcode": obs.rcode, "err": obs.err, "asked": obs.asked},
 		})
+	}
+	// fixed inputs first (VERIF_CORPUS/lab.json: [{"zone": "...", "servers": [codes]}])
+	for _, c := range vC13LabCorpus(t) {
+		runFanout(c.Servers, c.Zone, "lab-corpus")
+	}
+	// Directed: a large NS set most of which is lame for the question — k >= 3
+	// authorities answer with a failure rcode at once (all the same rcode, or
+	// three alike among others) and ONE healthy server answers after all of
+	// them.  However many lame verdicts have come in, the zone has not failed
+	// while a server is still unheard.  Every failure rcode; the healthy
+	// server at every position of the delegation.
+	rcodes := []int{vC13Refused, vC13ServFail, vC13NotImp, vC13NotAuth}
+	rounds := 1
+	if n >= 100 {
+		rounds = 3
+	}
+	for round := 0; round < rounds; round++ {
+		for ri, rc := range rcodes {
+			for _, lame := range []int{3, 4 + (ri+round+int(seed))%2} {
+				bs := make([]int, 0, lame+1)
+				for j := 0; j < lame; j++ {
+					bs = append(bs, rc)
+				}
+				bs = append(bs, vC13HealthySlow)
+				pos := r.Intn(len(bs))
+				bs[pos], bs[len(bs)-1] = bs[len(bs)-1], bs[pos]
+				runFanout(bs, zones[r.Intn(len(zones))], "lab-fanout-lame-majority")
+			}
+		}
+		for j := 0; j < 2; j++ { // three alike among other failure rcodes, and a second healthy one
+			rc := rcodes[r.Intn(len(rcodes))]
+			bs := []int{rc, rc, rc, rcodes[r.Intn(len(rcodes))], vC13HealthySlow}
+			if j == 1 {
+				bs = append(bs, vC13Healthy)
+			}
+			r.Shuffle(len(bs), func(a, b int) { bs[a], bs[b] = bs[b], bs[a] })
+			runFanout(bs, zones[r.Intn(len(zones))], "lab-fanout-lame-majority")
+		}
+	}
+	for i := 0; i < n; i++ {
+		k := 1 + r.Intn(6)
+		var bs []int
+		healthy := 0
+		switch r.Intn(4) {
+		case 0: // every server fails
+		case 1:
+			healthy = 1
+		default:
+			healthy = 1 + r.Intn(2)
+		}
+		if healthy > k {
+			healthy = k
+		}
+		for j := 0; j < k-healthy; j++ {
+			bs = append(bs, failing[r.Intn(len(failing))])
+		}
+		for j := 0; j < healthy; j++ {
+			bs = append(bs, []int{vC13Healthy, vC13HealthySlow, vC13HealthySlow}[r.Intn(3)])
+		}
+		r.Shuffle(len(bs), func(a, b int) { bs[a], bs[b] = bs[b], bs[a] })
+		if r.Intn(6) == 0 { // one silent server: costs a network timeout
+			bs[r.Intn(len(bs))] = vC13Silent
+		}
+		runFanout(bs, zones[r.Intn(len(zones))], "")
 	}
 	for i := 0; i < 4; i++ {
 		zoneQuota := i%2 == 1
